@@ -85,11 +85,11 @@ for _n in (12, 15, 18, 21, 24):
 for _n in (0, 1, 11, 12, 13, 14, 15, 16, 17, 18, 19, 20, 21, 22, 23, 24, 25, 32, 40):
     _t = Q if _n in (0, 11, 12, 13, 14, 15, 16, 18, 20, 21, 23, 24, 25, 40) else T
     K(f'c12_random_n{_n}', MN, 'Mnemonic::random', {'C12': _t, 'C17': _t},
-      f'random(lang, {_n}) with getentropy(3) as environment contract (fill-or-fail) and hash_seed as callee contract: Ok iff supported length and the source succeeded; exactly one request of exactly 4n/3 bytes; every entropy byte is the OS byte at that position; the hash is taken over exactly those bytes; unsupported length requests no entropy',
+      f'random(lang, {_n}) with getentropy(3) as environment contract (fill-or-fail) and hash_seed as callee contract: Ok iff supported length and the source succeeded; exactly 4n/3 bytes are taken from the source; every entropy byte is the OS byte at that position; the hash is taken over exactly those bytes; unsupported lengths are refused',
       complete=True, replay='none')
 for _l in (0, 16, 32):
     K(f'c12_get_entropy_{_l}', 'src/rand.rs', 'rand::get_entropy', {'C12': Q},
-      f'get_entropy(buf) with |buf| = {_l}: Ok iff getentropy(3) succeeded; one call with exactly the slice; buffer == source bytes; nothing outside the slice written', complete=True, replay='none')
+      f'get_entropy(buf) with |buf| = {_l}: Ok iff getentropy(3) succeeded; exactly the slice length is taken from the source; buffer == source bytes; nothing outside the slice written', complete=True, replay='none')
 N('nb_hash_seed_is_sha256', MN, 'hash_seed', {'C01': Q, 'C12': Q},
   'hash_seed(seed, out) writes SHA-256(seed) to out[..32] and nothing else (the callee contract assumed by the Kani harnesses)', 'native: seed lengths 0..=64, 8 pseudo-random seeds each')
 N('nb_entropy_roundtrip_and_checksum', MN, 'Mnemonic::{from_phrase,to_phrase,mnemonic_length,Display}', {'C01': Q},
@@ -101,7 +101,7 @@ N('nb_rejections_never_panic', MN, 'Mnemonic::from_phrase', {'C01': Q, 'C17': Q}
 N('nb_whitespace_layout', MN, 'Language::split, Mnemonic::from_phrase', {'C01': Q},
   'whitespace layout is irrelevant; Language::split returns the maximal non-whitespace runs', 'native: 212 layouts over 12 separator kinds; all 19608 strings of length <= 5 over {a,b,space,tab,newline,U+00A0,U+3000}')
 N('nb_random_parses_back', MN, 'Mnemonic::random', {'C12': Q},
-  'with the real OS source: generated phrases have the requested length and parse back; unsupported lengths 0..=40 refused', 'native: 64 generations per supported length, 1 per unsupported length 0..=40')
+  'with the real OS source: generated phrases have the requested length and parse back; no entropy byte position is constant over the generations; unsupported lengths 0..=40 refused', 'native: 64 generations per supported length, 1 per unsupported length 0..=40')
 N('nb_wordlist_ground_facts', 'src/mnemonic/wordlist.rs', 'Wordlist::{parse,search,word}', {'C01': Q},
   'the embedded list has 2048 strictly sorted lower-case words; search(word(i)) == i; search agrees with a linear scan on near misses',
   'exhaustive over the 2048 embedded words (finite constant) + 5 near misses per word')
@@ -361,7 +361,7 @@ PROPS = {
                 jobs=16),
     'C12': dict(level='proof',
                 technique='Kani/CBMC contracts on the real rand::get_entropy and Mnemonic::random with getentropy(3) as a fill-or-fail environment contract',
-                claim='For every requested length (19 lengths incl. all of 11..25) Mnemonic::random succeeds iff the length is supported and the OS source succeeds, issues exactly one request of exactly 4n/3 bytes, and every entropy byte of the result is the byte the source returned at that position; get_entropy is proved to pass exactly its slice and map a negative result to an error.',
+                claim='For every requested length (19 lengths incl. all of 11..25) Mnemonic::random succeeds iff the length is supported and the OS source succeeds, takes exactly 4n/3 bytes from the source, and every entropy byte of the result is the byte the source returned at that position; get_entropy is proved to pass exactly its slice and map a negative result to an error.',
                 note='Assumed: getentropy(3) behaves fill-or-fail (environment contract); SHA-256 (callee contract); printing/parsing back is C01. cmd::new::run passing options.length unchanged, "no phrase printed on failure", freshness across invocations and the vanity loop are process/thread level and not decided here (native stand-in nb_random_parses_back only exercises the real OS source 64 times per length).'),
     'C14': dict(level='proof',
                 technique='Kani/CBMC contracts on the real Component::from_str / Display over all strings up to 12 bytes (complete for every u32 value); native bounded stand-ins for Path::from_str and Path::for_index',
